@@ -103,7 +103,12 @@ def pv_tokens(state):
 
 
 def rng_token():
-    return common.sha(torch.get_rng_state().numpy().tobytes())
+    """The process-wide state that determines every future draw: torch's CPU generator AND the ambient settings the
+    library's samplers depend on (sample() draws its start states in the default dtype, and the float32 / float64
+    kernels consume the generator differently; grad mode and the determinism switch are equally process-wide).
+    The specification's `rng` term stands for all of it: an operation that does not draw leaves it unchanged."""
+    amb = "%s|%s|%s" % (torch.get_default_dtype(), torch.is_grad_enabled(), torch.are_deterministic_algorithms_enabled())
+    return common.sha(torch.get_rng_state().numpy().tobytes() + amb.encode())
 
 
 # ---------------------------------------------------------------------------
